@@ -30,6 +30,9 @@ pub struct Case {
     pub ident: String,
     pub rule: String,
     pub pos: Pos,
+    /// how the rename_all attribute is spelled relative to another serde attribute (0..5)
+    #[serde(default)]
+    pub layout: u8,
 }
 
 /// serde's answer; None when serde_derive itself panics on that identifier (outside any comparison)
@@ -66,12 +69,16 @@ pub fn valid_ident(s: &str) -> bool {
 }
 
 fn item_src(i: usize, c: &Case) -> String {
+    let attr = match c.layout % 5 {
+        0 => format!("#[serde(rename_all = {:?})]", c.rule),
+        1 => format!("#[serde(deny_unknown_fields)]\n#[serde(rename_all = {:?})]", c.rule),
+        2 => format!("#[serde(rename_all = {:?})]\n#[serde(deny_unknown_fields)]", c.rule),
+        3 => format!("#[serde(deny_unknown_fields, rename_all = {:?})]", c.rule),
+        _ => format!("#[serde(rename_all = {:?}, deny_unknown_fields,)]", c.rule),
+    };
     match c.pos {
-        Pos::Field => format!(
-            "#[typeshare]\n#[serde(rename_all = {:?})]\npub struct S{} {{ pub {}: u8 }}\n",
-            c.rule, i, c.ident
-        ),
-        Pos::Variant => format!("#[typeshare]\n#[serde(rename_all = {:?})]\npub enum S{} {{ {} }}\n", c.rule, i, c.ident),
+        Pos::Field => format!("#[typeshare]\n{}\npub struct S{} {{ pub {}: u8 }}\n", attr, i, c.ident),
+        Pos::Variant => format!("#[typeshare]\n{}\npub enum S{} {{ {} }}\n", attr, i, c.ident),
     }
 }
 
@@ -249,9 +256,9 @@ impl SubCheck for C16 {
             8 => proptest::sample::select(RULES.to_vec()).prop_map(|s| s.to_string()),
             1 => proptest::sample::select(UNKNOWN_RULES.to_vec()).prop_map(|s| s.to_string()),
         ];
-        (ident, rule, prop_oneof![Just(Pos::Field), Just(Pos::Variant)])
-            .prop_filter("valid Rust identifier", |(i, _, _)| valid_ident(i))
-            .prop_map(|(ident, rule, pos)| Case { ident, rule, pos })
+        (ident, rule, prop_oneof![Just(Pos::Field), Just(Pos::Variant)], 0u8..5)
+            .prop_filter("valid Rust identifier", |(i, _, _, _)| valid_ident(i))
+            .prop_map(|(ident, rule, pos, layout)| Case { ident, rule, pos, layout })
             .boxed()
     }
     fn eval(&self, run: &Run, c: &Case, _w: &mut Worker, counting: bool) -> Vec<Violation> {
@@ -316,7 +323,7 @@ pub fn run(run: &Run) {
     for id in &idents {
         for r in &rules {
             for pos in [Pos::Field, Pos::Variant] {
-                cases.push(Case { ident: id.clone(), rule: r.to_string(), pos });
+                cases.push(Case { ident: id.clone(), rule: r.to_string(), pos, layout: (fnv(&[id.as_bytes(), r.as_bytes()]) % 5) as u8 });
             }
         }
     }
@@ -349,7 +356,7 @@ pub fn run(run: &Run) {
         }
     });
     run.label_n("exhaustive-comparisons", cases.len() as u64);
-    run.sample("exhaustive", 3, || json!({"ident": "aB_1é", "rule": "camelCase", "pos": "Field", "serde": oracle("aB_1é", "camelCase", Pos::Field), "typeshare": format!("{:?}", observe_batch(&[Case{ident:"aB_1é".into(), rule:"camelCase".into(), pos:Pos::Field}])[0])}));
+    run.sample("exhaustive", 3, || json!({"ident": "aB_1é", "rule": "camelCase", "pos": "Field", "serde": oracle("aB_1é", "camelCase", Pos::Field), "typeshare": format!("{:?}", observe_batch(&[Case{ident:"aB_1é".into(), rule:"camelCase".into(), pos:Pos::Field, layout: 0}])[0])}));
     run.set_exhaustive(true);
     run.extra("exhaustive_scope", json!(format!("class-representative identifiers up to length {max_len}; the proptest part is sampled")));
     search(run, &C16, run.tier.pick(40_000, 1_500_000));
